@@ -11,25 +11,41 @@ void vr_unreachable(void){ __CPROVER_assert(0, "IR unreachable reached"); __CPRO
 void vr_bad_icall(void){ __CPROVER_assert(0, "indirect call to unknown function"); __CPROVER_assume(0); }
 uint64_t nondet_u64(void);
 uint64_t vr_nondet_u64(void){ return nondet_u64(); }
+#ifndef VR_MAXREG
+#define VR_MAXREG 12
+#endif
+static struct { const char* p; uint64_t len; } vr_reg[VR_MAXREG]; static int vr_nreg;
+void vr_register_string(const char* s, uint64_t len){
+  /* the registered length must be the true one */
+  for (uint64_t i = 0; i < len; i++) __CPROVER_assert(s[i] != 0, "registered string has an earlier NUL");
+  __CPROVER_assert(s[len] == 0, "registered string is not terminated at its registered length");
+  if (vr_nreg < VR_MAXREG) { vr_reg[vr_nreg].p = s; vr_reg[vr_nreg].len = len; vr_nreg++; }
+}
+uint64_t vr_strlen(const char* s){
+  for (int i = 0; i < vr_nreg && i < VR_MAXREG; i++) if (s == vr_reg[i].p) return vr_reg[i].len;
+  uint64_t n = 0; while (s[n]) n++; return n;
+}
+/* alignment is read off the offset inside the object (objects themselves are suitably aligned): foldable by symex */
+#define AL(p, k) (__CPROVER_POINTER_OFFSET(p) % (k) == 0)
 void* vr_memmove(void* d, const void* s, uint64_t n){
   if (n == 0 || d == s) return d;
-  if (((uintptr_t)d % 8 == 0) && ((uintptr_t)s % 8 == 0) && n % 8 == 0) {
+  if (AL(d, 8) && AL(s, 8) && n % 8 == 0) {
     uint64_t* D = (uint64_t*)d; const uint64_t* S = (const uint64_t*)s; uint64_t k = n / 8;
-    if ((uintptr_t)d < (uintptr_t)s) for (uint64_t i = 0; i < k; i++) D[i] = S[i]; else for (uint64_t i = k; i > 0; i--) D[i - 1] = S[i - 1];
-  } else if (((uintptr_t)d % 4 == 0) && ((uintptr_t)s % 4 == 0) && n % 4 == 0) {
+    if ((__CPROVER_POINTER_OBJECT(d) != __CPROVER_POINTER_OBJECT(s) || __CPROVER_POINTER_OFFSET(d) < __CPROVER_POINTER_OFFSET(s))) for (uint64_t i = 0; i < k; i++) D[i] = S[i]; else for (uint64_t i = k; i > 0; i--) D[i - 1] = S[i - 1];
+  } else if (AL(d, 4) && AL(s, 4) && n % 4 == 0) {
     uint32_t* D = (uint32_t*)d; const uint32_t* S = (const uint32_t*)s; uint64_t k = n / 4;
-    if ((uintptr_t)d < (uintptr_t)s) for (uint64_t i = 0; i < k; i++) D[i] = S[i]; else for (uint64_t i = k; i > 0; i--) D[i - 1] = S[i - 1];
+    if ((__CPROVER_POINTER_OBJECT(d) != __CPROVER_POINTER_OBJECT(s) || __CPROVER_POINTER_OFFSET(d) < __CPROVER_POINTER_OFFSET(s))) for (uint64_t i = 0; i < k; i++) D[i] = S[i]; else for (uint64_t i = k; i > 0; i--) D[i - 1] = S[i - 1];
   } else {
     char* D = (char*)d; const char* S = (const char*)s;
-    if ((uintptr_t)d < (uintptr_t)s) for (uint64_t i = 0; i < n; i++) D[i] = S[i]; else for (uint64_t i = n; i > 0; i--) D[i - 1] = S[i - 1];
+    if ((__CPROVER_POINTER_OBJECT(d) != __CPROVER_POINTER_OBJECT(s) || __CPROVER_POINTER_OFFSET(d) < __CPROVER_POINTER_OFFSET(s))) for (uint64_t i = 0; i < n; i++) D[i] = S[i]; else for (uint64_t i = n; i > 0; i--) D[i - 1] = S[i - 1];
   }
   return d;
 }
 void* vr_memcpy(void* d, const void* s, uint64_t n){ return vr_memmove(d, s, n); }
 void* vr_memset(void* d, int c, uint64_t n){
   if (n == 0) return d;
-  if (((uintptr_t)d % 8 == 0) && n % 8 == 0) { uint64_t v = (uint8_t)c * 0x0101010101010101ULL; for (uint64_t i = 0; i < n / 8; i++) ((uint64_t*)d)[i] = v; }
-  else if (((uintptr_t)d % 4 == 0) && n % 4 == 0) { uint32_t v = (uint8_t)c * 0x01010101U; for (uint64_t i = 0; i < n / 4; i++) ((uint32_t*)d)[i] = v; }
+  if (AL(d, 8) && n % 8 == 0) { uint64_t v = (uint8_t)c * 0x0101010101010101ULL; for (uint64_t i = 0; i < n / 8; i++) ((uint64_t*)d)[i] = v; }
+  else if (AL(d, 4) && n % 4 == 0) { uint32_t v = (uint8_t)c * 0x01010101U; for (uint64_t i = 0; i < n / 4; i++) ((uint32_t*)d)[i] = v; }
   else for (uint64_t i = 0; i < n; i++) ((char*)d)[i] = (char)c;
   return d;
 }
